@@ -84,7 +84,8 @@ ReadyClean == m.mode = "ready" => m.col = 0
 StmtNeutral ==
   [][ (m.mode = "run" /\ m'.mode = "run" /\ Resolve(m, m.pc).ln # PastEnd) =>
         LET s == StmtAt(CodeOf(m, Resolve(m, m.pc).ln), Resolve(m, m.pc).path) IN
-        s.k \notin {"for", "next", "gosub", "ongosub", "return", "run", "clear"} => m'.ctl = m.ctl ]_vars
+        s.k \notin {"for2", "next", "gosub", "ongosub", "return", "run", "clear"} => m'.ctl = m.ctl ]_vars
 
-EmitSess == Done => PrintT(ToJson([R |-> "sess", cmds |-> cmds]))
+SawOom == \E i \in 1..Len(m.resp) : m.resp[i].k = "err" /\ \E e \in m.resp[i].errs : e.code = EOutOfMemory
+EmitSess == Done => PrintT(ToJson([R |-> "sess", cmds |-> cmds, oom |-> SawOom]))
 =============================================================================
